@@ -124,6 +124,35 @@ def seq_programs(tier="thorough"):
     return progs
 
 
+def block_programs(tier="thorough"):
+    """Block-API programs (_if/_elif/_else, nested) whose conditions and operands are program inputs: end to end, every wire the
+    block API allocates (conjunctions of conditions, negations, merges, dummies of guarded constraints in arms that are not taken)
+    is adversarial, the merged variables must still be determined.  (A block nested inside an arm that is not taken allocates about
+    ten unconstrained wires -- the conjunction of guards decomposes both operands under a false guard --, 13^10 completions: left to
+    the honest-run comparison with native control flow of C09.)"""
+    from checks.c09_check import V, K, Add, C, CV, Asg, If
+    T = [("elif", ["f", "g"], [If([(CV("f"), [Asg("y", K(7))]), (CV("g"), [Asg("y", K(9))])], [Asg("y", K(3))])]),
+         ("elif_noelse", ["f", "g"], [If([(CV("f"), [Asg("y", K(7))]), (CV("g"), [Asg("y", Add(V("x"), K(1)))])])]),
+         ("elif3", ["f", "g", "h"], [If([(CV("f"), [Asg("y", K(7))]), (CV("g"), [Asg("y", K(9))]), (CV("h"), [Asg("y", K(11))])], [Asg("y", K(3))])]),
+         ("ifelse", ["f"], [If([(CV("f"), [Asg("y", Add(V("x"), K(1)))])], [Asg("y", K(3))])]),
+         ("cmp", ["f"], [If([(C("lt", V("x"), K(1)), [Asg("y", K(7))]), (CV("f"), [Asg("y", K(9))])], [Asg("y", K(3))])])]
+    if tier == "quick":
+        T = [t for t in T if t[0] in ("elif", "elif_noelse", "cmp")]
+    progs = []
+    import itertools
+    for name, flags, prog in T:
+        for bits in itertools.product((0, 1), repeat=len(flags)):
+            for x in ((1,) if tier == "quick" else (0, 1)):
+                B = gen.Builder("blk/%s/%s/%d" % (name, "".join(map(str, bits)), x), "plain", None, {"op": "block_" + name, "kinds": "B" * len(flags), "a": x, "gmode": "".join(map(str, bits))})
+                refs = {"x": B.opnd(("S", x)), "y": B.opnd(("S", 2))}
+                for fl, bv in zip(flags, bits):
+                    refs[fl] = B.opnd(("SB", bv))
+                spec = {n: {"ref": r, "ty": "ref"} for n, r in refs.items()}
+                B.add({"op": "cf", "prog": prog, "inputs": spec, "tag": "main"})
+                progs.append(B.build())
+    return progs
+
+
 def heavy(i):
     """Families built on the division gadget: their accepted-witness space is large (known finding), so they are
     searched exhaustively in the tiny field and only re-confirmed on a few instances in the field with margin."""
@@ -187,6 +216,15 @@ def main(tier):
         run.evaluations += len(insts)
         run.notes.append("P=13 b=2 end-to-end sequences on one object: %d instances" % len(insts))
         common.validate_insts(run, "Soundness", insts, cfg="Soundness_C02.cfg", label="e2e sequences", programs=sp, chunk=25, parallel=8)
+    if not run.violations:
+        bp = block_programs(tier)
+        bt = common.run_programs({"P": 13, "bitlength": 2, "resolution": 1}, bp)
+        insts = [i for i in (instances.from_trace_e2e(t, "unique") for t in bt) if i and i["out"] == "ok" and i["res"]]
+        for i in insts:
+            run.nontrivial.add((13, i["op"], "e2e", i["gmode"]))
+        run.evaluations += len(insts)
+        run.notes.append("P=13 b=2 end-to-end block-API programs: %d instances" % len(insts))
+        common.validate_insts(run, "Soundness", insts, cfg="Soundness_C02.cfg", label="e2e blocks", programs=bp, chunk=6, parallel=8)
     run.exhaustive = True
     return run.finish(RULE, assumptions=["uniqueness is decided per operation with operands fixed; longer programs rely on composition",
                                          "small-prime instantiation; no-wrap margin P > 2^(2b+2) for the main families, the division-based families (known finding) are enumerated in a tiny field and re-confirmed on a few instances with margin; transfer to the 254-bit field assumes the gadgets are uniform in the field"],
